@@ -36,6 +36,32 @@ SCRIPTED = [
         "reset 0 0 0 0 htp", "login 0 1", "pushstart 0:2 3", "approve 0", "tick", "tick", "tick", "tick", "poll 0:2 3",
         "sweep", "poll 0:2 3"]),
     # ---- histories every tree must survive
+    ("two-auth-cookies-in-one-request", [
+        "reset 7 0 0 2 htp", "login 0 1", "login 1 1",
+        "totp 1:2+0:2 0 0", "vipotp 1:2+0:2 0", "pushstart 1:2+0:2 5", "approve 0", "poll 1:2+0:2 5",
+        "u2fbegin 1:2+0:2", "u2ffinish 1:2+0:2 0 u 0", "wabegin 1:2+0:2", "wafinish 1:2+0:2 0 w 1",
+        "totp 0:2+1:2 0 1", "vipotp 0:2+1:2 0", "vipotp 0:2+1:2 1", "bootstrap 0:2+1:2 1", "poll 0:2+1:2 5",
+        "showtoken 1:2+0:66 120", "senddoc 1:2+0:66 0:120", "senddoc 0:66+1:18 0:120", "logout 0:2+1:2",
+        "totp x+0:2 0 1", "totp 0:2+x 0 2", "totp 1:2+x+0:2 0 2", "totp 1:2+0:2+1:2 0 3"]),
+    ("two-auth-cookies-okta", [
+        "reset 0 0 0 0 okta", "login 0 1", "login 1 1", "oktaotp 1:2+0:2 0", "oktapushstart 1:2+0:2", "oktaapprove 0",
+        "oktapoll 1:2+0:2", "oktapoll 0:2+1:2", "oktaotp 0:2+1:2 0"]),
+    ("bootstrap-otp-write-fault", [
+        "reset 0 3 0 3 htp", "login 0 1", "login 1 1", "fault 1 0", "bootstrap 0:2 0", "bootstrap 0:2 0", "fault 0 0",
+        "bootstrap 0:2 0", "bootstrap 0:2 0", "bootstrap 0:258 0", "fault 1 0", "bootstrap 1:2 1", "tick", "fault 0 0",
+        "bootstrap 1:2 1", "bootstrap 1:2 1"]),
+    ("totp-counter-write-fault", [
+        "reset 1 0 1 0 htp", "login 0 1", "fault 1 0", "totp 0:2 0 0", "totp 0:2 0 0", "fault 0 0", "totp 0:2 0 0",
+        "totp 0:2 0 0", "fault 1 0", "totp 0:2 0 1", "tick", "fault 0 0", "totp 0:2 0 1", "totp 0:66 0 1"]),
+    ("hardware-token-write-fault", [
+        "reset 6 0 0 0 htp", "login 0 1", "fault 1 0", "wabegin 0:2", "wafinish 0:2 0 u 0", "wafinish 0:2 0 u 0",
+        "u2fbegin 0:2", "u2ffinish 0:2 0 w 1", "u2ffinish 0:2 0 w 1", "wabegin 0:2", "wafinish 0:2 0 w 2",
+        "wafinish 0:2 0 w 2", "fault 0 0", "wafinish 0:2 0 w 2", "u2ffinish 0:2 0 w 1"]),
+    ("read-fault-fails-closed", [
+        "reset 7 0 0 2 htp", "login 0 1", "login 1 1", "u2fbegin 0:2", "fault 0 1", "login 0 1", "login 1 0",
+        "totp 0:2 0 0", "bootstrap 1:2 1", "u2ffinish 0:2 0 u 0", "u2fbegin 0:2", "wabegin 0:2", "wafinish 0:2 0 w 0",
+        "vipotp 0:2 0", "pushstart 0:2 1", "approve 0", "poll 0:2 1", "showtoken 0:18 120", "senddoc 0:18 0:120",
+        "totp x 0 0", "u2fbegin -", "fault 0 0", "totp 0:2 0 0", "bootstrap 1:2 1", "u2ffinish 0:2 0 u 0"]),
     ("cross-user-everything", [
         "reset 7 0 7 0 htp", "login 0 1", "login 1 1",
         "totp 0:2 1 0", "totp 1:2 0 0", "vipotp 0:2 1", "vipotp 1:2 0",
@@ -68,6 +94,11 @@ SCRIPTED = [
 
 def attack_keys():
     return {n for n, _ in SCRIPTED[:7]}
+
+
+def caller_of(refs):
+    """the cookie that identifies the caller of a request: the LAST auth cookie attached"""
+    return refs.split("+")[-1]
 
 
 # ----------------------------------------------------------------------------- random generator
@@ -114,6 +145,7 @@ class Seq:
 
     def owner_for(self, ck):
         r = self.rng.random()
+        ck = caller_of(ck)
         sub = int(ck.split(":")[0]) if ":" in ck else self.rng.choice(USERS)
         if r < 0.62:
             return str(sub)
@@ -134,6 +166,55 @@ class Seq:
         if same:
             return self.rng.choice(same)
         return ck
+
+    def multi(self, op):
+        """with some probability the request carries a SECOND auth cookie (any issued one, before or after)"""
+        f = op.split()
+        if len(f) < 2 or f[0] in ("login", "approve", "oktaapprove", "tick", "sweep", "fault") or ":" not in f[1] \
+                or "+" in f[1] or not self.cookies or self.rng.random() > 0.13:
+            return op
+        sub = f[1].split(":")[0]
+        others = [c for c in self.cookies if c.split(":")[0] != sub]
+        extra = self.rng.choice(others) if others and self.rng.random() < 0.8 else self.rng.choice(self.cookies + ["x"])
+        r = self.rng.random()
+        if r < 0.6:
+            f[1] = extra + "+" + f[1]          # the caller stays; somebody else's cookie rides in front
+        elif r < 0.95:
+            f[1] = f[1] + "+" + extra          # the extra cookie becomes the caller
+        else:
+            f[1] = extra + "+" + f[1] + "+" + self.rng.choice(self.cookies)
+        return " ".join(f)
+
+    def fault_flow(self):
+        """a one-time value is presented while the profile store refuses writes (or reads), then again"""
+        rng = self.rng
+        ck = self.pick_cookie()
+        sub = int(caller_of(ck).split(":")[0]) if ":" in ck else rng.choice(USERS)
+        c2 = self.other_cookie(ck)
+        arm = rng.choice(["fault 1 0", "fault 1 0", "fault 1 0", "fault 0 1", "fault 1 1"])
+        kind = rng.choice(["totp", "bootstrap", "bootstrap", "wa", "u2f"])
+        if kind == "totp":
+            r = self.now + rng.choice([0, 0, 1])
+            self.totp_used.append((str(sub), r))
+            use = "totp %s %d %d" % (ck, sub, r)
+            again = "totp %s %d %d" % (c2, sub, r)
+        elif kind == "bootstrap":
+            use = "bootstrap %s %d" % (ck, sub)
+            again = "bootstrap %s %d" % (c2, sub)
+        else:
+            regs = [t for t, bit in (("u", T_U2F), ("w", T_WA)) if self.flags[sub] & bit] or ["u"]
+            tk = rng.choice(regs)
+            fin = "u2ffinish" if kind == "u2f" else "wafinish"
+            self.asserts.append((str(sub), tk, self.nchal))
+            use = "%s %s %d %s %d" % (fin, ck, sub, tk, self.nchal)
+            again = "%s %s %d %s %d" % (fin, c2, sub, tk, self.nchal)
+            self.fault = True
+            return ["%sbegin %s" % (kind, ck), arm, use, "fault 0 0", again, use][:rng.choice([4, 5, 6])]
+        self.fault = True
+        ops = [arm, use, "fault 0 0", again, use]
+        if rng.random() < 0.3:
+            ops.insert(2, again)
+        return ops
 
     def flow(self):
         """a coherent multi-step flow (so that upgrades really happen), its last step possibly hijacked"""
@@ -180,10 +261,12 @@ class Seq:
         target = len(self.ops) + k
         while len(self.ops) < target:
             if self.cookies and rng.random() < 0.3:
-                for op in self.flow():
+                for op in (self.fault_flow() if rng.random() < 0.22 else self.flow()):
                     if op == "tick":
                         self.now += 1
-                    self.ops.append(op)
+                    if op == "fault 0 0":
+                        self.fault = False
+                    self.ops.append(self.multi(op))
                 continue
             table = [("login", 9), ("vipotp", 4), ("pushstart", 8), ("approve", 7), ("poll", 10), ("totp", 13),
                      ("bootstrap", 6), ("u2fbegin", 6), ("u2ffinish", 9), ("wabegin", 5), ("wafinish", 8),
@@ -192,6 +275,9 @@ class Seq:
                 table += [("oktaotp", 5), ("oktapushstart", 6), ("oktaapprove", 6), ("oktapoll", 8)]
             elif rng.random() < 0.02:
                 table += [("oktapoll", 50)]
+            table += [("fault", 2)]
+            if getattr(self, "fault", False):
+                table += [("heal", 12)]
             if not self.cookies:
                 table += [("login", 40)]
             kinds, weights = zip(*table)
@@ -240,9 +326,15 @@ class Seq:
             elif kind == "tick":
                 op = "tick"
                 self.now += 1
+            elif kind == "fault":
+                op = rng.choice(["fault 1 0", "fault 1 0", "fault 0 1", "fault 1 1"])
+                self.fault = True
+            elif kind == "heal":
+                op = "fault 0 0"
+                self.fault = False
             else:
                 op = "sweep"
-            self.ops.append(op)
+            self.ops.append(self.multi(op))
 
 
 def learn(seq, outs):
@@ -263,7 +355,7 @@ def learn(seq, outs):
         if f[0] == "showtoken":
             exp = next(exp_iter)
             if code == "200":
-                seq.tokens.append("%s:%d" % (f[1].split(":")[0], exp))
+                seq.tokens.append("%s:%d" % (caller_of(f[1]).split(":")[0], exp))
     seq.seen = len(seq.ops)
 
 
@@ -293,7 +385,11 @@ def alphabet_for(digest, family):
     nc = int(re.search(r"nc=(\d+)", digest).group(1))
     ops = ["login 0 1", "login 1 1", "tick", "sweep"]
     if family == "push-totp-u2f":
-        ops.append("approve 0")
+        ops += ["approve 0", "fault 1 0" if "f=0" in digest else "fault 0 0"]
+        for c1 in cks:
+            for c2 in cks:
+                if c1.split(":")[0] != c2.split(":")[0]:
+                    ops += ["totp %s+%s 0 0" % (c1, c2), "bootstrap %s+%s 1" % (c1, c2)]
         for ck in cks:
             ops += ["pushstart %s 1" % ck, "poll %s 1" % ck, "totp %s 0 0" % ck, "totp %s 0 1" % ck,
                     "bootstrap %s 1" % ck, "u2fbegin %s" % ck]
@@ -513,10 +609,24 @@ def run(ctx):
         hist[k] = hist.get(k, 0) + 1
         if r[1] != "-":
             accepted[f[0]] = accepted.get(f[0], 0) + 1
-        if len(f) > 2 and ":" in f[1] and f[2] in ("0", "1") and f[0] not in ("login", "pushstart", "poll", "showtoken") \
-                and f[1].split(":")[0] != f[2] and r[1] == "-":
+        if len(f) > 2 and ":" in caller_of(f[1]) and f[2] in ("0", "1") and f[0] not in ("login", "pushstart", "poll", "showtoken") \
+                and caller_of(f[1]).split(":")[0] != f[2] and r[1] == "-":
             cross_rej += 1
         states.add((f[0], i))
+    under_fault = consume_under_fault = fault_500 = 0
+    armed = (False, False)
+    for o, i in zip(ops, impl):
+        f = o.split()
+        if f[0] == "reset":
+            armed = (False, False)
+        elif f[0] == "fault":
+            armed = (f[1] == "1", f[2] == "1")
+        elif any(armed) and f[0] not in ("tick", "sweep", "approve", "oktaapprove"):
+            under_fault += 1
+            if armed[0] and f[0] in ("totp", "bootstrap", "u2ffinish", "wafinish"):
+                consume_under_fault += 1
+            if i.split()[0] == "500":
+                fault_500 += 1
     sites = facts.get("c05_upgrade_sites")
     ctx.coverage.update({
         "evaluations": len(ops),
@@ -528,10 +638,15 @@ def run(ctx):
         "status_histogram": dict(sorted(hist.items())),
         "accepted_by_op": accepted, "op_kinds": kinds, "cross_user_attempts_rejected": cross_rej,
         "disagreements": len(dis), "judged_violations": nviol,
+        "requests_with_several_auth_cookies": sum(1 for o in ops if len(o.split()) > 1 and "+" in o.split()[1]),
+        "several_cookies_accepted": sum(1 for o, i in zip(ops, impl) if len(o.split()) > 1 and "+" in o.split()[1] and i.split()[1] != "-"),
+        "requests_under_storage_fault": under_fault, "one_time_ops_under_write_fault": consume_under_fault,
+        "status_500_under_fault": fault_500,
         "totp_direct_probe": {"impl": got, "model": want},
         "totp_realtime_probe": wait_result,
         "exhaustive": {"families": exh_stats, "states": exh_states} if exh_stats else None,
         "upgrade_sites": sites, "poll_binding": facts.get("c05_poll_binding"), "expiry_sites": facts.get("c05_expiry_sites"),
+        "auth_cookie_choice": facts.get("c05_auth_cookie_choice"), "consumed_before_upgrade": facts.get("c05_consumed_before_upgrade"),
         "samples": [{"op": o, "impl": i, "model": m} for o, i, m in list(zip(ops, impl, model))[:8]],
     })
     ctx.assumptions += [
